@@ -307,7 +307,7 @@ def error_sensor(plat, c, l):
     def scenario(sx):
         f, spa = build(plat, c, l)
         from geckolib.driver import GeckoBoolStructAccessor
-        keys = [k for k in spa.struct.error_keys if isinstance(spa.accessors[k], GeckoBoolStructAccessor)]
+        keys = [k for k in spa.struct.error_keys if k in spa.accessors]
         if len(keys) < 2:
             sx.check(True, "err.total")
             return
@@ -318,10 +318,14 @@ def error_sensor(plat, c, l):
         bits = []
         for k in keys[w:w + 2]:
             a = spa.accessors[k]
-            b = sx.int_(f"flag_{k}", 0, 1)
-            bits.append((k, b))
             rec = refmodel.record_of(a)
-            items[a.pos] = items[a.pos] | (b << (rec["bitpos"] or 0))
+            if isinstance(a, GeckoBoolStructAccessor):
+                b = sx.int_(f"flag_{k}", 0, 1)
+                bits.append((k, b))
+            else:
+                # an error key that is not a flag (error-id bytes): any value
+                b = sx.int_(f"value_{k}", 0, (rec["mask"] if rec["bitpos"] is not None else (1 << (8 * rec["size"])) - 1))
+            fe.set_item(items, a, b)
         spa.struct.set_status_block(fe.block_from_items(items))
         try:
             f.error_sensor.update_state()
